@@ -236,24 +236,24 @@ type accInfo struct {
 // ---------- per-function SMT context ----------
 
 type Ctx struct {
-	g        *Global
-	decls    []string
-	declared map[string]bool
-	assumes  []string
-	fresh    int
-	accIndex map[string]accInfo
-	structs  map[string]*structInfo // sort name -> info
-	heapSorts map[string]bool
-	litStr   map[string]string // go string literal -> const name
-	litOrder []string
-	cntDefs  map[string]string
-	trusted  map[string]bool // assumed library contracts used
-	unspecified map[string]bool
-	notes    map[string]bool
-	defs     map[string]string
-	inlineCache map[string]Val
-	inContract int
-	sorts map[string]string
+	g            *Global
+	decls        []string
+	declared     map[string]bool
+	assumes      []string
+	fresh        int
+	accIndex     map[string]accInfo
+	structs      map[string]*structInfo // sort name -> info
+	heapSorts    map[string]bool
+	litStr       map[string]string // go string literal -> const name
+	litOrder     []string
+	cntDefs      map[string]string
+	trusted      map[string]bool // assumed library contracts used
+	unspecified  map[string]bool
+	notes        map[string]bool
+	defs         map[string]string
+	inlineCache  map[string]Val
+	inContract   int
+	sorts        map[string]string
 	predImplicit map[string][]string
 }
 
